@@ -1,4 +1,4 @@
-import Proofs.Uri.Resource
+import Proofs.Uri.NormalForm
 /-!
 # C16 — CoAP URIs and Uri-* options convert into each other without loss
 
@@ -71,6 +71,31 @@ Uri-Path as for Uri-Query (RFC 7252 cannot tell "/" from the empty path either).
 theorem C16_degenerate_lists_collapse :
     encodePath [[]] = encodePath [] ∧ encodeQuery [[]] = encodeQuery [] := by
   constructor <;> rfl
+
+-- 3b. URI → options → URI ------------------------------------------------------------------
+
+/-- **Full statement** (kept visible; it is *false* as it stands, see below): for every text
+`u` that `set_request_uri` accepts with options `o`, `get_request_uri` composes a text `u'`
+which is accepted again, decomposes to the same options as `u`, and is a fixed point.
+
+**Proved** for every accepted byte string `u` except two classes, spelled out as hypotheses:
+* `hname` — the Uri-Host value does not spell an IP address (`coap://%31.2.3.4/`,
+  `coap://%3A%3A1/`, `coap://@[::1]/`).  There the composed URI is `coap://1.2.3.4/` resp.
+  `coap://[::1]/`, whose host is an IP literal, so the host moves from Uri-Host to the remote:
+  same destination, different options (RFC 7252 §6.4/§6.5 behave the same way).  The second
+  example below exhibits the difference on the model; the harness oracle compares the
+  effective destination on this class.
+* `hbr` — a `[` in the authority is its first character and the only one (`coap://a[::1]/`
+  is accepted by `urllib` but is no RFC 3986 authority).
+
+`laws` are the assumptions about Python's `ipaddress` (not modelled).  What is established:
+`u'` is composed, accepted, has the same scheme, Uri-Host, Uri-Port, Uri-Path, Uri-Query and
+port; for IP literals the whole message state is identical; and `u'` recomposes to itself. -/
+theorem C16_uri_opts_uri_partial (ip : IpOracle) (laws : IpLaws ip) (u : Bytes) (hu : u.wf)
+    (o : Opts) (hok : setRequestUri ip u = .ok o) (hbr : BracketLeads u)
+    (hname : ∀ h, o.uriHost = some h → NotIpText ip h) :
+    ∃ u' o', NormalForm ip o u' o' :=
+  normalForm_of_accepted laws hu hok hbr hname
 
 -- 4. distinct resources never collapse ------------------------------------------------------
 
@@ -300,8 +325,12 @@ theorem C16_no_colon_rejected (ip : IpOracle) (u : Bytes) (h : 58 ∉ u) :
     unfold sanitise at hm
     exact h ((List.dropWhile_suffix _).subset (List.mem_filter.mp hm).1)
   have hsch : (splitAuthority u).1 = [] := by
+    have hno : schemeOk (sanitise u) = false := by
+      unfold schemeOk
+      rw [contains_false_of_not_mem hs]
+      rfl
     unfold splitAuthority splitScheme
-    simp only [contains_false_of_not_mem hs, Bool.false_and, Bool.false_eq_true, ↓reduceIte]
+    simp only [hno, Bool.false_eq_true, ↓reduceIte]
     split <;> rfl
   unfold setRequestUri urlsplit
   by_cases hb : bracketsOk ip (splitAuthority u).2.1 = true
@@ -317,6 +346,48 @@ theorem C16_no_colon_rejected (ip : IpOracle) (u : Bytes) (h : 58 ∉ u) :
 
 /-- an oracle that knows one IPv6 address -/
 def exIp : IpOracle := { norm6 := fun t => if t = [58, 58, 49] then some t else none }
+
+theorem exIp_laws : IpLaws exIp := by
+  refine ⟨?_, ?_, ?_⟩ <;> intro x y h <;> simp only [exIp] at h <;> split at h
+  · injection h with h; subst h; rename_i hx; subst hx
+    exact ⟨by simp [exIp], by decide, by decide, by decide, by decide⟩
+  · cases h
+  · injection h with h; subst h; exact fun c hc => Or.inl hc
+  · cases h
+  · injection h with h; rename_i hx; subst hx; decide
+  · cases h
+
+/-- `CoAp://H:0080/%7e?` is accepted (host lower-cased, port kept with the remote as written) and
+is in the scope of `C16_uri_opts_uri_partial` -/
+def exText : Bytes := [67,111,65,112,58,47,47,72,58,48,48,56,48,47,37,55,101,63]
+
+def exTextOpts : Opts :=
+  { scheme := [99,111,97,112], hostinfo := [72,58,48,48,56,48], uriHost := some [104],
+    uriPort := none, path := [[126]], query := [] }
+
+example : exText.wf ∧ BracketLeads exText ∧ setRequestUri exIp exText = .ok exTextOpts ∧
+    NotIpText exIp [104] := by
+  refine ⟨by decide, ?_, ?_, ⟨by decide, by decide⟩⟩
+  · intro h; exact absurd h (by decide)
+  · simp [setRequestUri, urlsplit, splitAuthority, splitScheme, schemeOk, sanitise, before, after,
+      takeUntil, dropUntil, isUnsafeWs, isC0Space, exText, isSchemeChar, isAlpha, isUpper, isLower,
+      isDigit, asciiLower, lowerChar, isNetlocDelim, bracketsOk, fromParsed, coapSchemes,
+      hostnameOf, rawHostname, hostinfoOf, afterLast, lowerUntilPct, hasUserinfo, beforeLast,
+      decodePath, decodeQuery, splitOn, decodeSegs, unquoteStrict, portOf, rawPort, allDigits,
+      decToNat, undecidedHostinfo, ip4Looking, utf8Valid, exTextOpts,
+      unquote_escape (a := 55) (b := 101) (x := 7) (y := 14) [] (by decide) (by decide), unquote_nil,
+      unquote_cons_ne (c := 104) [] (by decide)]
+
+/-- the hypothesis `hname` cannot be dropped: the options of `coap://%31.2.3.4/` (Uri-Host
+"1.2.3.4", remote `%31.2.3.4`) compose to `coap://1.2.3.4/`, which decomposes *without* Uri-Host -/
+def exIpTextOpts : Opts :=
+  { scheme := [99,111,97,112], hostinfo := [37,51,49,46,50,46,51,46,52],
+    uriHost := some [49,46,50,46,51,46,52], uriPort := none, path := [], query := [] }
+
+example : getRequestUri exIp exIpTextOpts = some [99,111,97,112,58,47,47,49,46,50,46,51,46,52,47] ∧
+    setRequestUri exIp [99,111,97,112,58,47,47,49,46,50,46,51,46,52,47]
+      = .ok { exIpTextOpts with hostinfo := [49,46,50,46,51,46,52], uriHost := none } := by
+  constructor <;> decide
 
 /-- `coap://h/a%2Fb//%C3%A5?x&&y=%26` -/
 def exName : Resource :=
